@@ -109,19 +109,24 @@ def NormalizeOptimizePreservesObs (env : Env) (arch : String) (phys : VarSet) : 
         tracesAgree ((runSub env ss.1.term σ fuel).map observable)
           ((runSub env ss.2.term σ fuel).map observable) = true
 
-/-- the program after the first two stages (expression propagation, trivial expression substitution) -/
-def stage2 (p : Program) : Program := substTrivialProgram (propagateProgram p)
+/-- the program after the first two stages (expression propagation with the tables `m`, trivial expression
+substitution) -/
+def stage2 (m : TableMap) (p : Program) : Program :=
+  substTrivialProgram (propagateProgramWith m (mergeAssignmentsProgram p))
 /-- ... and after dead variable elimination -/
-def stage3 (phys : VarSet) (p : Program) : Program := removeDeadProgram phys (stage2 p)
+def stage3 (m : TableMap) (phys : VarSet) (p : Program) : Program := removeDeadProgram phys (stage2 m p)
 
 /-- the image of the function `s` of `p` after the first two stages -/
-def stage2Sub (p : Program) (s : Term Sub) : Term Sub :=
-  mapSubBlocks (mapBlkExprs substTrivial)
-    (propagateSub (computeTables (mergeAssignmentsProgram p)) (mapSubBlocks mergeDefAssignmentsToSameVar s))
+def stage2Sub (m : TableMap) (s : Term Sub) : Term Sub :=
+  mapSubBlocks (mapBlkExprs substTrivial) (propagateSub m (mapSubBlocks mergeDefAssignmentsToSameVar s))
 
-theorem stage2_subs (p : Program) : (stage2 p).subs = p.subs.map (stage2Sub p) := by
-  simp only [stage2, substTrivialProgram, mapProgramSubs, propagateProgram_subs, List.map_map]
+theorem stage2_subs (m : TableMap) (p : Program) : (stage2 m p).subs = p.subs.map (stage2Sub m) := by
+  simp only [stage2, substTrivialProgram, propagateProgramWith, mergeAssignmentsProgram, mapProgramSubs, List.map_map]
   rfl
+
+theorem normalizeOptimize_eq (arch : String) (sp : Variable) (phys : VarSet) (p : Program) :
+    normalizeOptimize arch sp phys p =
+      normalizeOptimizeWith (computeTables (mergeAssignmentsProgram p)) arch sp phys p := rfl
 
 /-- The hypotheses of the composition theorem that are not hypotheses of the property:
   * the architecture (the stack alignment substitution is proved for x86_64: 8-byte stack pointer, alignment 16);
@@ -129,32 +134,36 @@ theorem stage2_subs (p : Program) : (stage2 p).subs = p.subs.map (stage2Sub p) :
   * structural conditions on the INPUT program: `CfOk` (unique jump and block tids, at most two jumps per block
     the first of two conditional, no `CallOther` with a return site — recorded known limitation —, calls with a
     return site target an extern symbol or a function with a returning block) and `dveShapeOk` (a conditional
-    jump is followed by a jump that always has a CFG edge);
-  * the fuelled iteration `computeTables` of the MODEL of expression propagation reached a post-fixpoint
-    (executable conditions; the driver evaluates them on every generated case, and the same conditions for the
-    tables of the REAL fixpoint). The iteration of dead variable elimination is proved to reach one
-    (`computeAliveVars_closed`). -/
+    jump is followed by a jump that always has a CFG edge).
+The tables of the expression-propagation fixpoint are a parameter of the theorem (any well-sized post-fixpoint). -/
 structure OptimizeHyp (env : Env) (arch : String) (phys : VarSet) (p : Program) : Prop where
   arch64 : arch = "x86_64"
   sp8 : env.sp.size = 8
   regs : ∀ v ∈ env.physRegs, v ∈ phys
   cf : CfOk p
   shape : ∀ s ∈ p.subs, dveShapeOk s.term.blocks = true
-  tablesClosed : tablesClosed (mergeAssignmentsProgram p) (computeTables (mergeAssignmentsProgram p)) = true
-  tablesReach : tablesReach (mergeAssignmentsProgram p) (computeTables (mergeAssignmentsProgram p)) = true
+
+/-- `CfOk` of the input program gives `CfOk` of the program after the first three stages -/
+theorem cfOk_stage3 (m : TableMap) (phys : VarSet) {p : Program} (h : CfOk p) : CfOk (stage3 m phys p) := by
+  have : stage3 m phys p = mapCfg (fun s => removeDeadBlock (computeAliveVars phys s.term.blocks))
+      (mapCfg (fun _ => mapBlkExprs substTrivial)
+        (mapCfg (fun _ => propagateBlockWith m) (mapCfg (fun _ => mergeDefAssignmentsToSameVar) p))) := rfl
+  rw [this]
+  exact cfOk_keeps (keepsCfg_removeDead phys) (cfOk_keeps keepsCfg_trivial
+    (cfOk_keeps (keepsCfg_propagate _) (cfOk_keeps keepsCfg_merge h)))
 
 /-- block tids stay unique (by value) inside every function after the first two stages -/
-theorem blkTidsUnique_stage2 {p : Program} (h : CF.BlkTidsUnique p) : CF.BlkTidsUnique (stage2 p) := by
-  have : stage2 p = mapCfg (fun _ => mapBlkExprs substTrivial)
-      (mapCfg (fun _ => propagateBlockWith (computeTables (mergeAssignmentsProgram p)))
-        (mapCfg (fun _ => mergeDefAssignmentsToSameVar) p)) := rfl
+theorem blkTidsUnique_stage2 (m : TableMap) {p : Program} (h : CF.BlkTidsUnique p) :
+    CF.BlkTidsUnique (stage2 m p) := by
+  have : stage2 m p = mapCfg (fun _ => mapBlkExprs substTrivial)
+      (mapCfg (fun _ => propagateBlockWith m) (mapCfg (fun _ => mergeDefAssignmentsToSameVar) p)) := rfl
   rw [this]
   exact blkTidsUnique_keeps keepsCfg_trivial (blkTidsUnique_keeps (keepsCfg_propagate _)
     (blkTidsUnique_keeps keepsCfg_merge h))
 
 /-- the jump shapes needed by dead variable elimination are kept by the first two stages -/
-theorem dveShapeOk_stage2Sub (p : Program) (s : Term Sub) (h : dveShapeOk s.term.blocks = true) :
-    dveShapeOk (stage2Sub p s).term.blocks = true := by
+theorem dveShapeOk_stage2Sub (m : TableMap) (s : Term Sub) (h : dveShapeOk s.term.blocks = true) :
+    dveShapeOk (stage2Sub m s).term.blocks = true := by
   simp only [stage2Sub, propagateSub_eq, mapSubBlocks]
   rw [dveShapeOk_keeps keepsCfg_trivial s, dveShapeOk_keeps (keepsCfg_propagate _) s,
     dveShapeOk_keeps keepsCfg_merge s]
@@ -185,20 +194,26 @@ theorem FuelLe.map_observable {a b : List Event} (h : CF.FuelLe a b) :
     · exact hp (hf ▸ he)
     · exact observable_ne_fuel hf heq
 
-/-- **C10-composition (partial).** `Project::normalize_optimize` — all five stages: expression propagation,
-trivial expression substitution, dead variable elimination, control flow propagation, stack alignment
-substitution — preserves the observable behaviour of every function: for every size-consistent program `p`
-satisfying `OptimizeHyp`, every function `ss.1` of `p` and its image `ss.2`, every well-formed initial state with a
-16-byte aligned stack pointer and every fuel, if the run of `ss.1` keeps the boolean discipline (H1), keeps H2
-(`RunLocals`: non-physical registers are assigned before they are read and do not live across calls) and does
-not get stuck (H3), then the observable traces agree (`Sem.tracesAgree`: equal, or equal up to the point where
-the unoptimised run, which executes the forwarding blocks the optimised one skips, runs out of fuel).
+/-- **C10-composition (tables as parameter).** `Project::normalize_optimize` — all five stages: expression
+propagation, trivial expression substitution, dead variable elimination, control flow propagation, stack
+alignment substitution — with ANY well-sized family of tables `m` that is a post-fixpoint of the transfer
+functions of expression propagation on the input program (`tablesClosed`, `tablesReach`: executable; the driver
+checks them for the tables of the REAL fixpoint on every case) preserves the observable behaviour of every
+function: for every size-consistent program `p` satisfying `OptimizeHyp`, every function `ss.1` of `p` and its
+image `ss.2`, every well-formed initial state with a 16-byte aligned stack pointer and every fuel, if the run of
+`ss.1` keeps the boolean discipline (H1), keeps H2 (`RunLocals`: non-physical registers are assigned before they
+are read and do not live across calls) and does not get stuck (H3), then the observable traces agree
+(`Sem.tracesAgree`: equal, or equal up to the point where the unoptimised run, which executes the forwarding
+blocks the optimised one skips, runs out of fuel).
 
-Partial with respect to `NormalizeOptimizePreservesObs`: the hypotheses `OptimizeHyp` (see there) and H2, which
-the property does not state (it is a hypothesis of the executable specification: P-Code temporaries are local). -/
-theorem normalizeOptimize_preserves_partial (env : Env) (arch : String) (phys : VarSet) (p : Program)
+Partial with respect to `NormalizeOptimizePreservesObs`: the hypotheses `OptimizeHyp` (architecture, structural
+conditions on the input program) and H2, which the property does not state (it is a hypothesis of the executable
+specification: P-Code temporaries are local). -/
+theorem normalizeOptimizeWith_preserves_partial (env : Env) (arch : String) (phys : VarSet) (p : Program)
     (hp : WellSizedProgram p env.sp.size) (H : OptimizeHyp env arch phys p)
-    (ss : Term Sub × Term Sub) (hss : ss ∈ p.subs.zip (normalizeOptimize arch env.sp phys p).subs)
+    (m : TableMap) (hws : AllWS m) (hcl : tablesClosed (mergeAssignmentsProgram p) m = true)
+    (hre : tablesReach (mergeAssignmentsProgram p) m = true)
+    (ss : Term Sub × Term Sub) (hss : ss ∈ p.subs.zip (normalizeOptimizeWith m arch env.sp phys p).subs)
     (σ : State) (fuel : Nat) (hσ : StateWF σ) (halign : (σ.getReg env.sp).toNat % 16 = 0)
     (hok : ∀ b bs, ss.1.term.blocks = b :: bs → RunOk env ss.1.term.blocks fuel b.tid σ 0)
     (hns : NoStuck (runSub env ss.1.term σ fuel))
@@ -206,12 +221,12 @@ theorem normalizeOptimize_preserves_partial (env : Env) (arch : String) (phys : 
     tracesAgree ((runSub env ss.1.term σ fuel).map observable)
       ((runSub env ss.2.term σ fuel).map observable) = true := by
   -- the functions of the output, stage by stage
-  have hsubs : (normalizeOptimize arch env.sp phys p).subs = p.subs.map fun s =>
-      (saSub env.sp (expectedAlignmentOf arch) [] (cfSub (stage3 phys p) (removeDeadSub phys (stage2Sub p s)))).1 := by
-    have h3 : (stage3 phys p).subs = p.subs.map fun s => removeDeadSub phys (stage2Sub p s) := by
+  have hsubs : (normalizeOptimizeWith m arch env.sp phys p).subs = p.subs.map fun s =>
+      (saSub env.sp (expectedAlignmentOf arch) [] (cfSub (stage3 m phys p) (removeDeadSub phys (stage2Sub m s)))).1 := by
+    have h3 : (stage3 m phys p).subs = p.subs.map fun s => removeDeadSub phys (stage2Sub m s) := by
       simp only [stage3, removeDeadProgram, mapProgramSubs, stage2_subs, List.map_map]; rfl
-    have : normalizeOptimize arch env.sp phys p =
-        (substituteAndOnStackpointer arch env.sp (propagateControlFlow (stage3 phys p))).1 := rfl
+    have : normalizeOptimizeWith m arch env.sp phys p =
+        (substituteAndOnStackpointer arch env.sp (propagateControlFlow (stage3 m phys p))).1 := rfl
     rw [this, substituteAndOnStackpointer_subs, propagateControlFlow_subs, h3, List.map_map, List.map_map]
     rfl
   rw [hsubs] at hss
@@ -229,40 +244,42 @@ theorem normalizeOptimize_preserves_partial (env : Env) (arch : String) (phys : 
     simp only [mergeAssignmentsProgram, mapProgramSubs, List.mem_map]
     exact ⟨s, hmem, rfl⟩
   have hcfg₁ := subCfgOk_mapBlocks (g := mergeDefAssignmentsToSameVar) (fun _ => rfl) hcfg
-  have hws := computeTables_ws hp₁
-  obtain ⟨e₁, ok₁⟩ := propagateWith_runSub env (mergeAssignmentsProgram p) hp₁ _ hws H.tablesClosed H.tablesReach
+  obtain ⟨e₁, ok₁⟩ := propagateWith_runSub env (mergeAssignmentsProgram p) hp₁ m hws hcl hre
     _ hm₁ hcfg₁ σ fuel hσ ok₀ hns₀
-  have loc₁ := propagateWith_runLocalsSub env phys (mergeAssignmentsProgram p) hp₁ _ hws H.tablesClosed
-    H.tablesReach _ hm₁ hcfg₁ σ fuel hσ ok₀ loc₀ hns₀
-  have hns₁ : NoStuck (runSub env (propagateSub (computeTables (mergeAssignmentsProgram p))
-      (mapSubBlocks mergeDefAssignmentsToSameVar s)).term σ fuel) := by rw [e₁]; exact hns₀
+  have loc₁ := propagateWith_runLocalsSub env phys (mergeAssignmentsProgram p) hp₁ m hws hcl hre
+    _ hm₁ hcfg₁ σ fuel hσ ok₀ loc₀ hns₀
+  have hns₁ : NoStuck (runSub env (propagateSub m (mapSubBlocks mergeDefAssignmentsToSameVar s)).term σ fuel) := by
+    rw [e₁]; exact hns₀
   -- stage 2: trivial expression substitution (exact, transports H2)
-  have hws₁ : WellSizedSub env.sp.size
-      (propagateSub (computeTables (mergeAssignmentsProgram p)) (mapSubBlocks mergeDefAssignmentsToSameVar s)).term := by
-    apply propagateProgram_wellSized hp
-    rw [propagateProgram_subs]
-    exact List.mem_map.mpr ⟨s, hmem, rfl⟩
-  have e₂ : runSub env (stage2Sub p s).term σ fuel = runSub env s.term σ fuel := by
+  have hws₁ : WellSizedSub env.sp.size (propagateSub m (mapSubBlocks mergeDefAssignmentsToSameVar s)).term := by
+    rw [propagateSub_eq]
+    intro b' hb'
+    obtain ⟨b, hb, rfl⟩ := mem_mapSubBlocks.mp hb'
+    apply propagateBlock_ws _ (hp₁ _ hm₁ b hb)
+    cases hg : m.get b.tid with
+    | none => exact tableWS_nil
+    | some t => exact allWS_get hws hg
+  have e₂ : runSub env (stage2Sub m s).term σ fuel = runSub env s.term σ fuel := by
     unfold stage2Sub
     rw [substTrivial_runSub env _ hws₁ σ fuel hσ ok₁ hns₁, e₁, e₀]
-  have loc₂ : RunLocalsSub env phys (stage2Sub p s) σ fuel :=
+  have loc₂ : RunLocalsSub env phys (stage2Sub m s) σ fuel :=
     substTrivial_runLocalsSub env phys _ hws₁ σ fuel hσ ok₁ loc₁ hns₁
   -- stage 3: dead variable elimination (observable traces)
-  have hm₂ : stage2Sub p s ∈ (stage2 p).subs := by
+  have hm₂ : stage2Sub m s ∈ (stage2 m p).subs := by
     rw [stage2_subs]; exact List.mem_map.mpr ⟨s, hmem, rfl⟩
-  have halive : aliveClosed phys (stage2Sub p s).term.blocks
-      (computeAliveVars phys (stage2Sub p s).term.blocks) = true :=
+  have halive : aliveClosed phys (stage2Sub m s).term.blocks
+      (computeAliveVars phys (stage2Sub m s).term.blocks) = true :=
     computeAliveVars_closed phys _ (fun b hb b' hb' heq =>
-      (blkTidsUnique_stage2 H.cf.blkTids _ hm₂ b hb _ hm₂ b' hb' heq).2)
-  have e₃ := removeDeadSub_runSub env phys (stage2Sub p s) (dveShapeOk_stage2Sub p s (H.shape s hmem))
+      (blkTidsUnique_stage2 m H.cf.blkTids _ hm₂ b hb _ hm₂ b' hb' heq).2)
+  have e₃ := removeDeadSub_runSub env phys (stage2Sub m s) (dveShapeOk_stage2Sub m s (H.shape s hmem))
     halive H.regs σ fuel loc₂ (by rw [e₂]; exact hns)
-  have hns₃ : NoStuck (runSub env (removeDeadSub phys (stage2Sub p s)).term σ fuel) :=
+  have hns₃ : NoStuck (runSub env (removeDeadSub phys (stage2Sub m s)).term σ fuel) :=
     NoStuck.of_map_observable e₃ (by rw [e₂]; exact hns)
   -- stage 4: control flow propagation (the optimised run needs less fuel)
-  have hm₃ : removeDeadSub phys (stage2Sub p s) ∈ (stage3 phys p).subs := by
+  have hm₃ : removeDeadSub phys (stage2Sub m s) ∈ (stage3 m phys p).subs := by
     simp only [stage3, removeDeadProgram, mapProgramSubs]
     exact List.mem_map.mpr ⟨_, hm₂, rfl⟩
-  have e₄ := propagateControlFlow_fuelLe env (stage3 phys p) (cfOk_stages phys H.cf) _ hm₃ σ fuel hns₃
+  have e₄ := propagateControlFlow_fuelLe env (stage3 m phys p) (cfOk_stage3 m phys H.cf) _ hm₃ σ fuel hns₃
   -- stage 5: stack alignment substitution (exact)
   have hea : expectedAlignmentOf arch = 16#64 := by rw [H.arch64]; exact expectedAlignmentOf_x86_64
   rw [hea, saSub_runSub env _ [] σ fuel H.sp8 hσ halign]
@@ -272,18 +289,42 @@ theorem normalizeOptimize_preserves_partial (env : Env) (arch : String) (phys : 
   rw [e₃, e₂] at this
   exact this
 
+/-- **C10-composition (partial).** `Project::normalize_optimize` as modelled, i.e. with the tables of the model's
+own fuelled iteration `computeTables`, whenever that iteration reached a post-fixpoint (two executable conditions;
+the driver evaluates them on every generated case).
+
+Partial with respect to `NormalizeOptimizePreservesObs`: the hypotheses `OptimizeHyp` (architecture, structural
+conditions on the input program), the stabilisation of `computeTables`, and H2, which the property does not state
+(it is a hypothesis of the executable specification: P-Code temporaries are local). -/
+theorem normalizeOptimize_preserves_partial (env : Env) (arch : String) (phys : VarSet) (p : Program)
+    (hp : WellSizedProgram p env.sp.size) (H : OptimizeHyp env arch phys p)
+    (hcl : tablesClosed (mergeAssignmentsProgram p) (computeTables (mergeAssignmentsProgram p)) = true)
+    (hre : tablesReach (mergeAssignmentsProgram p) (computeTables (mergeAssignmentsProgram p)) = true)
+    (ss : Term Sub × Term Sub) (hss : ss ∈ p.subs.zip (normalizeOptimize arch env.sp phys p).subs)
+    (σ : State) (fuel : Nat) (hσ : StateWF σ) (halign : (σ.getReg env.sp).toNat % 16 = 0)
+    (hok : ∀ b bs, ss.1.term.blocks = b :: bs → RunOk env ss.1.term.blocks fuel b.tid σ 0)
+    (hns : NoStuck (runSub env ss.1.term σ fuel))
+    (hloc : ∀ b bs, ss.1.term.blocks = b :: bs → RunLocals env phys ss.1.term.blocks fuel b.tid σ 0 []) :
+    tracesAgree ((runSub env ss.1.term σ fuel).map observable)
+      ((runSub env ss.2.term σ fuel).map observable) = true :=
+  normalizeOptimizeWith_preserves_partial env arch phys p hp H _
+    (computeTables_ws (mergeAssignmentsProgram_wellSized hp)) hcl hre ss
+    (by rw [← normalizeOptimize_eq]; exact hss) σ fuel hσ halign hok hns hloc
+
 /-- **C10-composition from the executable hypothesis check (partial).** The same with the run-time hypotheses
 H1 and H2 in the form the driver evaluates them: `hypSub` (Spec.lean) accepts the run of the unoptimised
 function, and every non-temporary variable the function reads is a physical register. -/
 theorem normalizeOptimize_preserves_of_hypSub_partial (env : Env) (arch : String) (phys : VarSet) (p : Program)
     (hp : WellSizedProgram p env.sp.size) (H : OptimizeHyp env arch phys p)
+    (hcl : tablesClosed (mergeAssignmentsProgram p) (computeTables (mergeAssignmentsProgram p)) = true)
+    (hre : tablesReach (mergeAssignmentsProgram p) (computeTables (mergeAssignmentsProgram p)) = true)
     (ss : Term Sub × Term Sub) (hss : ss ∈ p.subs.zip (normalizeOptimize arch env.sp phys p).subs)
     (σ : State) (fuel : Nat) (hσ : StateWF σ) (halign : (σ.getReg env.sp).toNat % 16 = 0)
     (hnt : NonTempPhys phys ss.1.term.blocks) (hhyp : hypSub env ss.1.term σ fuel = true)
     (hns : NoStuck (runSub env ss.1.term σ fuel)) :
     tracesAgree ((runSub env ss.1.term σ fuel).map observable)
       ((runSub env ss.2.term σ fuel).map observable) = true := by
-  refine normalizeOptimize_preserves_partial env arch phys p hp H ss hss σ fuel hσ halign ?_ hns ?_
+  refine normalizeOptimize_preserves_partial env arch phys p hp H hcl hre ss hss σ fuel hσ halign ?_ hns ?_
   · intro b bs hbl
     simp only [hypSub, hbl] at hhyp
     exact runOk_of_hypRun env _ fuel b.tid σ 0 [] (by rw [hbl]; exact hhyp)
@@ -345,7 +386,9 @@ private def xP : Program :=
 /-- the program satisfies the hypotheses of the composition theorem … -/
 example : WellSizedProgram xP xEnv.sp.size := by decide
 example : OptimizeHyp xEnv "x86_64" xPhys xP :=
-  ⟨rfl, rfl, by decide, cfOkB_sound (by decide), by decide, by decide, by decide⟩
+  ⟨rfl, rfl, by decide, cfOkB_sound (by decide), by decide⟩
+example : tablesClosed (mergeAssignmentsProgram xP) (computeTables (mergeAssignmentsProgram xP)) = true ∧
+    tablesReach (mergeAssignmentsProgram xP) (computeTables (mergeAssignmentsProgram xP)) = true := by decide
 
 /-- … all three optimisations happen … -/
 example : (normalizeOptimize "x86_64" xRsp xPhys xP).subs.map
